@@ -272,7 +272,10 @@ func appendTokensForValue(val cty.Value, toks Tokens) Tokens {
 		i := 0
 		for it := val.ElementIterator(); it.Next(); {
 			eKey, eVal := it.Element()
-			if hclsyntax.ValidIdentifier(eKey.AsString()) {
+			// A key named "for" must be quoted: an object constructor whose
+			// first token after the brace is the bare keyword "for" is parsed
+			// as a for expression instead.
+			if hclsyntax.ValidIdentifier(eKey.AsString()) && eKey.AsString() != "for" {
 				toks = append(toks, &Token{
 					Type:  hclsyntax.TokenIdent,
 					Bytes: []byte(eKey.AsString()),
